@@ -219,7 +219,9 @@ class RaggedIndexedContiguousArray(RaggedArray):
                 if d < d1:
                     c = shapes[d]
                 else:
-                    c = shapes[d + 1]
+                    # Three uncompressed dimensions have been
+                    # compressed into one
+                    c = shapes[d + len(u_dims) - 1]
 
                 c = tuple(accumulate((0,) + c))
                 c_indices.append([slice(i, j) for i, j in zip(c[:-1], c[1:])])
